@@ -160,6 +160,15 @@ func SolveAll(obls []*Obligation, opts SolveOpts) []Result {
 			defer wg.Done()
 			sem <- struct{}{}
 			defer func() { <-sem }()
+			if o.Kind == "scan" && (o.Goal == "true" || o.Goal == "false") {
+				// structural obligation decided by the generator on the control-flow graph: no solver involved
+				st := "unsat"
+				if o.Goal == "false" {
+					st = "sat"
+				}
+				res[i] = Result{Name: o.Name, Kind: o.Kind, Fn: o.Fn, Status: st, Solver: "cfg-scan", Pos: o.Pos, Text: o.Text}
+				return
+			}
 			q := o.Query(true)
 			if opts.DumpDir != "" {
 				os.WriteFile(filepath.Join(opts.DumpDir, sanitize(o.Name)+".smt2"), []byte(q), 0644)
